@@ -75,6 +75,7 @@ type Cfg struct {
 	MaxSteps int `json:"maxsteps"`
 	// consumers (C13) / extra
 	Consumers int `json:"consumers,omitempty"`
+	CrashAt   int `json:"crashat,omitempty"` // crash the process at this cut point (adapter call / fn entry / fn exit), 0 = never
 }
 
 // SubT is the generated part of a submission (stored in replay files).
@@ -159,6 +160,7 @@ type qh struct {
 	idx    int
 	cfg    QCfg
 	add    func(v int, prio int, id string) (*hnd, bool)
+	addBare func(v int, prio int, id string) bool
 	addAll func(items []Item[int], b *bnd)
 	purge  func()
 	close  func() error
@@ -203,8 +205,56 @@ type World struct {
 	crashStep  uint64
 	finalDone  bool
 	probeSub   int
+	cuts       int
+	crashHadState bool
+	itemsAtBind   int
+	rootTaskID int
 	scripts    []*scriptTask
 }
+
+// spawnConsumer creates a further worker (own World, same recorder and
+// submissions) bound to the root's shared adapter: a second consumer process
+// (C13) or the recovery incarnation after a crash (C11).
+func (wd *World) spawnConsumer(conc int, qc QCfg) *World {
+	root := wd.root
+	c := &World{cfg: root.cfg, prog: root.prog, rec: root.rec, subs: root.subs, root: root, cidx: len(root.consumers) + 1, numCPU: root.numCPU}
+	c.cfg.Conc = conc
+	c.cfg.UseCtx = false
+	c.cfg.IDGen = false
+	root.consumers = append(root.consumers, c)
+	c.makeWorker()
+	root.binding = c
+	if root.sharedAd != nil {
+		root.itemsAtBind += len(root.sharedAd.pending)
+	}
+	c.bindQueue(qc, nil)
+	root.binding = nil
+	return c
+}
+
+// cut is called at every crash cut point (adapter call, worker-function entry
+// and exit): the CrashAt-th one kills the process.
+func (wd *World) cut() {
+	root := wd.root
+	root.cuts++
+	if root.cfg.CrashAt == 0 || root.cuts != root.cfg.CrashAt || root.crashed {
+		return
+	}
+	root.crashed = true
+	root.crashes++
+	root.crashStep = simrt.Step()
+	root.rec.probes[pbCrashInjected]++
+	for _, c := range root.consumers {
+		c.crashed = true
+	}
+	simrt.DropReplay()
+	rootTask := root.rootTaskID
+	simrt.Freeze(func(t *simrt.Task) bool { return t.ID != rootTask })
+	// the task that reached the cut point dies as well
+	simrt.Block(never)
+}
+
+func never() bool { return false }
 
 // isCrashedTask: the task belongs to a process incarnation that was killed.
 func (wd *World) isCrashedTask(t *simrt.Task) bool { return simrt.IsFrozen(t) }
@@ -398,11 +448,15 @@ func (wd *World) bindPlain(b IWorkerBinder[int], kind int, qc QCfg) *qh {
 	case qkDist:
 		q.ad = wd.adapterFor(qc, false)
 		lq := b.WithDistributedQueue(adQ{q.ad})
+		bare := NewDistributedQueue[int](adQ{q.ad})
+		q.addBare = func(v, prio int, id string) bool { return bare.Add(v, jobCfg(id)...) }
 		q.add = func(v, prio int, id string) (*hnd, bool) { return nil, lq.Add(v, jobCfg(id)...) }
 		q.purge, q.close, q.nump = lq.Purge, lq.Close, lq.NumPending
 	case qkDistPrio:
 		q.ad = wd.adapterFor(qc, true)
 		lq := b.WithDistributedPriorityQueue(adPQ{q.ad})
+		bare := NewDistributedPriorityQueue[int](adPQ{q.ad})
+		q.addBare = func(v, prio int, id string) bool { return bare.Add(v, prio, jobCfg(id)...) }
 		q.add = func(v, prio int, id string) (*hnd, bool) { return nil, lq.Add(v, prio, jobCfg(id)...) }
 		q.purge, q.close, q.nump = lq.Purge, lq.Close, lq.NumPending
 	}
